@@ -243,6 +243,69 @@ for how, mk in [('deepcopy', lambda: copy.deepcopy(g))] + [('pickle protocol %d'
     if 'handle' not in g.__dict__ or g.__dict__.get('note') != 'keep':
         bad.append('%s: copying changed the ORIGINAL (handle present: %r, note: %r)' % (how, 'handle' in g.__dict__, g.__dict__.get('note')))
         g.__dict__['handle'] = ['restored']; g.__dict__['note'] = 'keep'
+# every restored object is a fully constructed one: whatever the state lacks, whenever the copy was taken
+def makers(o):
+    return [('deepcopy', lambda: copy.deepcopy(o))] + [('pickle protocol %d' % k, (lambda k=k: pickle.loads(pickle.dumps(o, k)))) for k in (2, pickle.HIGHEST_PROTOCOL)]
+def is_constructed(label, c):
+    try:
+        c.k = 99
+        bad.append('%s: the constant parameter of the copy can be rebound (the copy is not initialized)' % label)
+    except TypeError:
+        pass
+    try:
+        c.param.watch(lambda e: None, 'x')
+    except RuntimeError as e:
+        bad.append('%s: watching the copy raises %r (the copy is not initialized)' % (label, e))
+    before = K.param.x.bounds
+    c.param.x.bounds = (0, 123)
+    if K.param.x.bounds != before:
+        bad.append('%s: a per-instance bounds edit on the copy changed the class Parameter' % label)
+        K.param.x.bounds = before
+class K(param.Parameterized):
+    x = param.Number(1, bounds=(0, 10))
+    k = param.Number(5, constant=True)
+class Lean(K):
+    def __getstate__(self):
+        state = super().__getstate__()
+        return {n: v for n, v in state.items() if not n.startswith('_')}      # drops param's own bookkeeping
+class Early(K):
+    snapshots = []
+    def __init__(self, **kw):
+        self.note = 'set before construction'
+        self.x = 4                              # a parameter assigned before construction
+        for how, mk in makers(self):
+            try:
+                Early.snapshots.append((how, mk()))
+            except Exception as e:
+                Early.snapshots.append((how, e))
+        super().__init__(**kw)
+__main__.K = K; __main__.Lean = Lean; __main__.Early = Early
+for how, mk in makers(Lean(x=2)):
+    try:
+        c = mk()
+    except Exception as e:
+        bad.append('%s of an object whose __getstate__ drops the underscore entries raised %r' % (how, e)); continue
+    is_constructed('%s of an object whose __getstate__ drops the underscore entries' % how, c)
+Early(x=3)
+for how, c in Early.snapshots:
+    if isinstance(c, Exception):
+        continue                      # refusing to copy an object under construction is fine
+    is_constructed('%s taken inside __init__ before super().__init__()' % how, c)
+# falsy values of per-instance Parameter attributes survive as they are
+class F(param.Parameterized):
+    n = param.Number(1.5, step=0.5, bounds=(0, 3))
+    i = param.Integer(2, step=2)
+    s = param.String('t', doc='documented')
+__main__.F = F
+f = F()
+f.param.n.step = 0; f.param.i.step = 0; f.param.n.softbounds = (0, 0); f.param.s.doc = ''; f.param.n.precedence = 0; f.param.s.label = ''
+want = {('n', 'step'): 0, ('i', 'step'): 0, ('n', 'softbounds'): (0, 0), ('s', 'doc'): '', ('n', 'precedence'): 0}
+for how, mk in makers(f):
+    c = mk()
+    for (pn, attr), v in want.items():
+        got = getattr(c.param[pn], attr)
+        if got != v or type(got) is not type(v):
+            bad.append('%s: per-instance %s.%s == %r on the original, %r on the copy' % (how, pn, attr, v, got))
 if bad:
     print('REPRODUCED: C17 an ordinary attribute does not survive the copy:')
     for b in bad[:8]:
